@@ -463,6 +463,37 @@ func ParseFile(path string, pkgPath string) (*File, error) {
 			sf.Pkg = f.Pkg
 			f.Specs = append(f.Specs, sf)
 			cur, curCS = nil, nil
+		case "footprint":
+			eq := strings.Index(rest, "=")
+			op := strings.Index(rest, "(")
+			cp := strings.Index(rest, ")")
+			if eq < 0 || op < 0 || cp < op || cp > eq {
+				return nil, fail(fmt.Errorf("footprint Name(params) = locations"))
+			}
+			fp := &Footprint{Name: strings.TrimSpace(rest[:op]), Pos: ln.pos}
+			for _, n := range strings.Split(rest[op+1:cp], ",") {
+				if n = strings.TrimSpace(n); n != "" {
+					fp.Params = append(fp.Params, n)
+				}
+			}
+			ls, err := parseExprList(rest[eq+1:])
+			if err != nil {
+				return nil, fail(err)
+			}
+			fp.Locs = ls
+			f.Footprints = append(f.Footprints, fp)
+			cur, curCS = nil, nil
+		case "macro":
+			// macro name(a, b) = expr : an untyped spec function (parameters and result take the types of the arguments and
+			// of the body), usable with values of generic types
+			sf, err := parseMacro(rest)
+			if err != nil {
+				return nil, fail(err)
+			}
+			sf.Pos = ln.pos
+			sf.Pkg = f.Pkg
+			f.Specs = append(f.Specs, sf)
+			cur, curCS = nil, nil
 		case "represents":
 			// represents (*impl) Iface.$ghost = expr
 			eq := strings.Index(rest, "=")
@@ -638,6 +669,26 @@ func ParseFile(path string, pkgPath string) (*File, error) {
 					cur.DynCalls = map[string]string{}
 				}
 				cur.DynCalls[parts[0]] = parts[1]
+			case "monitor":
+				gi := strings.Index(rest, " guards ")
+				ii := strings.Index(rest, " invariant ")
+				if gi < 0 || ii < gi {
+					return nil, fail(fmt.Errorf("monitor lock guards locations invariant expr"))
+				}
+				le, err := ParseExpr(rest[:gi])
+				if err != nil {
+					return nil, fail(err)
+				}
+				gs, err := parseExprList(rest[gi+8 : ii])
+				if err != nil {
+					return nil, fail(err)
+				}
+				cl, err := parseClause(rest[ii+11:], ln.pos)
+				if err != nil {
+					return nil, fail(err)
+				}
+				cur.Monitors = append(cur.Monitors, &Monitor{Lock: le, Guards: gs, Inv: cl, Pos: ln.pos})
+				curCS = nil
 			case "reenter":
 				i := strings.Index(rest, " modifies ")
 				if i < 0 {
@@ -755,6 +806,15 @@ func ParseFile(path string, pkgPath string) (*File, error) {
 					return nil, fail(err)
 				}
 				curCS.Asserts = append(curCS.Asserts, cl)
+			case "assume":
+				if curCS == nil || curCS.Cut {
+					return nil, fail(fmt.Errorf("assume outside callsite"))
+				}
+				cl, err := parseClause(rest, ln.pos)
+				if err != nil {
+					return nil, fail(err)
+				}
+				curCS.Assumes = append(curCS.Assumes, cl)
 			case "assert":
 				if curCS == nil || curCS.Cut {
 					return nil, fail(fmt.Errorf("assert outside callsite"))
@@ -773,10 +833,10 @@ func ParseFile(path string, pkgPath string) (*File, error) {
 }
 
 var keywords = map[string]bool{
-	"spec": true, "ghost": true, "axiom": true, "lemma": true, "event": true, "func": true,
+	"spec": true, "macro": true, "footprint": true, "ghost": true, "axiom": true, "lemma": true, "event": true, "func": true,
 	"requires": true, "ensures": true, "modifies": true, "pure": true, "noeffect": true, "trusted": true,
-	"let": true, "loop": true, "callsite": true, "assert": true, "cutafter": true, "invariant": true, "typeinv": true, "import": true, "package": true,
-	"noinline": true, "inline": true, "props": true, "fresh": true, "opt": true, "stablegetters": true, "represents": true, "dyncall": true, "silent": true, "assumes": true, "reenter": true,
+	"let": true, "loop": true, "callsite": true, "assert": true, "assume": true, "cutafter": true, "invariant": true, "typeinv": true, "import": true, "package": true,
+	"noinline": true, "inline": true, "props": true, "fresh": true, "opt": true, "stablegetters": true, "represents": true, "dyncall": true, "silent": true, "assumes": true, "reenter": true, "monitor": true,
 }
 
 func firstWord(s string) string {
@@ -853,6 +913,30 @@ func parseSpecFunc(s string) (*SpecFunc, error) {
 	sf.Result = p.parseType()
 	if p.err != nil {
 		return nil, p.err
+	}
+	e, err := ParseExpr(body)
+	if err != nil {
+		return nil, err
+	}
+	sf.Body = e
+	return sf, nil
+}
+
+func parseMacro(s string) (*SpecFunc, error) {
+	eq := strings.Index(s, "=")
+	if eq < 0 {
+		return nil, fmt.Errorf("macro f(params) = expr")
+	}
+	sig, body := strings.TrimSpace(s[:eq]), s[eq+1:]
+	op := strings.Index(sig, "(")
+	if op <= 0 || !strings.HasSuffix(sig, ")") {
+		return nil, fmt.Errorf("macro f(params) = expr")
+	}
+	sf := &SpecFunc{Name: strings.TrimSpace(sig[:op])}
+	for _, n := range strings.Split(sig[op+1:len(sig)-1], ",") {
+		if n = strings.TrimSpace(n); n != "" {
+			sf.Params = append(sf.Params, Param{n, nil})
+		}
 	}
 	e, err := ParseExpr(body)
 	if err != nil {
